@@ -891,3 +891,67 @@ Proof.
     now destruct (hres_any q2 id n _).
 Qed.
 
+(* ---- C11, seen from the delivery: what reaches a handler or the protocol service was free *)
+Lemma delivered_was_free p s id :
+  reserves p = Some id -> delivered (snd (proto_body p s)) = true -> inuse id s = false.
+Proof.
+  intros Hr Hd. destruct (inuse id s) eqn:Hi; auto.
+  destruct (inuse_not_delivered p s id Hr Hi) as [H _]. congruence.
+Qed.
+
+(* ---- C16: every packet is processed, answered, ends the connection with a protocol error that is
+   reported as Stop(Protocol), or is one of the listed silent cases *)
+Lemma recv_total p s :
+  match snd (proto_body p s) with
+  | OHandler _ _ _ _ _ _ | OCtl _ | OCtlP _ _ _ _ _ _ => True          (* handed to the application *)
+  | ODone (RSome _ _ _) => True                                         (* answered *)
+  | ODone (RErr e) => exists r, e = EProto r /\ 128 <= r /\ stop_kind e = 1
+  | ODone RNone =>
+    ignored_kind (is_client s) (v5 (c_ s)) p = true \/ stopped (i_ s) = true \/
+    (v5 (c_ s) = true /\ exists id, reserves p = Some id /\ inuse id s = true /\
+       fst (proto_body p s) = io_encode (dup_ack_type p) id 145 s) \/
+    (v5 (c_ s) = false /\ is_client s = true /\ exists id, p = KPubrel id /\ memN id (pubrel (p_ s)) = false /\
+       closedio (fst (proto_body p s)) = true)
+  end.
+Proof.
+  destruct (snd (proto_body p s)) as [[|t i r|[r|]]| | |] eqn:E; auto.
+  - now apply silent_outcomes.
+  - exists r. repeat split; auto.
+    apply proto_err_table in E as [->|[(-> & _)|[(-> & _)|(-> & _)]]]; lia.
+  - now apply body_never_service_error in E.
+Qed.
+
+Lemma io_encode_effect t id r s :
+  wire (i_ (io_encode t id r s)) = (if closedio s then wire (i_ s) else wire (i_ s) ++ [t; id; r]) /\
+  p_ (io_encode t id r s) = p_ s.
+Proof. split; [apply io_encode_wire|apply io_encode_p]. Qed.
+
+Lemma ignored_kind_table client is5 p :
+  ignored_kind client is5 p =
+  match p with
+  | KOther | KBad _ => true
+  | KAck2 => negb client
+  | KAuth => negb is5
+  | _ => false
+  end.
+Proof. reflexivity. Qed.
+
+(* v5 server: a QoS above the advertised maximum *)
+Lemma qos_not_supported_refused qos id topic alias retain plen s :
+  v5 (c_ s) = true -> is_client s = false -> 0 < qos -> topic <> 4 -> over_quota s = false ->
+  max_qos (c_ s) < qos ->
+  proto_body (KPublish qos id topic alias retain plen) s = (s, ODone (RErr (EProto 155))).
+Proof.
+  unfold over_quota. intros Hv Hc Hq Ht Ho Hm. apply N.ltb_lt in Hq, Hm. apply N.eqb_neq in Ht.
+  bodies. rewrite Hv, Hc, Hq, Ht in *. cbv beta iota zeta. rewrite Ho, Hm. reflexivity.
+Qed.
+
+(* MqttShared::close() of a v3 client: the guarded DISCONNECT *)
+Lemma close3c_wire s :
+  wire (i_ (close3c s)) = (if dsent (p_ s) || closedio s then wire (i_ s) else wire (i_ s) ++ [224; 0; 0]) /\
+  dsent (p_ (close3c s)) = true /\ closedio (close3c s) = true.
+Proof.
+  split; [|split; [now rewrite close3c_p|apply close3c_closed]].
+  unfold close3c, test_set_dsent. destruct (dsent (p_ s)); rewrite io_close_wire; [reflexivity|].
+  rewrite io_encode_wire. reflexivity.
+Qed.
